@@ -161,6 +161,9 @@ class Ctx(object):
                 "viol_counts": {"%s|%s" % k: v for k, v in self._viol_keys.items()}}
 
 
+TZS = ["UTC0", "PST8", "XYZ-5:30", "NZST-12", "HST10", "CET-1"]
+
+
 def load_prop(prop):
     import importlib
     return importlib.import_module("vmon.props." + prop.lower())
@@ -229,6 +232,10 @@ def run_check(prop, tier, seed, replay=None):
             descs = [{"replay": rec["case"], "tier": tier, "seed": seed}]
         else:
             descs = mod.plan(tier, seed)
+            if getattr(mod, "ROTATE_TZ", False):
+                # verif's calendar is UTC whatever the machine's time zone: shards run under different process time zones
+                for i_, d_ in enumerate(descs):
+                    d_.setdefault("tz", TZS[(i_ + seed) % len(TZS)])
         timeout_s = getattr(mod, "TIMEOUT", {}).get(tier, 1500 if tier == "quick" else 7200)
         results, failures = _run_workers(prop, descs, timeout_s, workroot)
     finally:
@@ -299,7 +306,9 @@ def run_check(prop, tier, seed, replay=None):
                        "seed": seed, "tier": tier}, f, indent=1)
         replay_paths.append((v, path))
 
-    if replay is None:
+    if replay is None and evaluations == 0:
+        inconclusive.append("no evaluation was made (every shard failed): evidence file not rewritten")
+    if replay is None and evaluations > 0:
         cov = {
             "evaluations": evaluations,
             "distinct_nontrivial": distinct_nontrivial,
